@@ -171,6 +171,9 @@ GEO_TWEAKS = [
     ('Units:Net Electricity Production', ['kW']),
     ('Units:Produced Temperature', ['degF']),
     ('Units:Pumping Power', ['kW']),
+    # very large and very small projects: values that overflow the column widths of the report, negative economics
+    ('Number of Production Wells', ['200\nNumber of Injection Wells, 200', '200\nNumber of Injection Wells, 200\nReservoir Depth, 5',
+                                    '1\nNumber of Injection Wells, 1\nProduction Flow Rate per Well, 10']),
     # list-valued parameters: requests that differ only in the tail of a multi-valued line
     ('Number of Segments', ['2\nGradients, 50, 40\nThicknesses, 1.5, 1', '2\nGradients, 50, 25\nThicknesses, 1.5, 1',
                             '2\nGradients, 50, 25\nThicknesses, 1.2, 1', '3\nGradients, 50, 40, 30\nThicknesses, 1, 0.5, 1']),
